@@ -69,7 +69,7 @@ func bfsPool(run *ev.Run, p *pool.Pool, sys string, arg interface{}, maxDepth, s
 	seen := map[string]struct{}{}
 	// initial state
 	res0 := p.Map("bfs", []interface{}{bfsJob{Sys: sys, Arg: raw}}, nil)
-	r0, ok := decodeBfs(run, sys, nil, res0[0], &st)
+	r0, ok := decodeBfs(run, sys, nil, res0[0], &st, bfsJob{Sys: sys, Arg: raw})
 	if !ok {
 		return st
 	}
@@ -90,7 +90,7 @@ func bfsPool(run *ev.Run, p *pool.Pool, sys string, arg interface{}, maxDepth, s
 		var next [][]string
 		for i, pr := range results {
 			st.Transitions++
-			r, ok := decodeBfs(run, sys, hists[i], pr, &st)
+			r, ok := decodeBfs(run, sys, hists[i], pr, &st, jobs[i].(bfsJob))
 			if !ok {
 				continue
 			}
@@ -130,15 +130,19 @@ func bfsPool(run *ev.Run, p *pool.Pool, sys string, arg interface{}, maxDepth, s
 		jobs = append(jobs, bfsJob{Sys: sys, Arg: raw, Hist: h, Deep: true})
 	}
 	for i, pr := range p.Map("bfs", jobs, nil) {
-		if _, ok := decodeBfs(run, sys, st.Reps[i], pr, &st); ok {
+		if _, ok := decodeBfs(run, sys, st.Reps[i], pr, &st, jobs[i].(bfsJob)); ok {
 			st.DeepChecked++
 		}
 	}
 	return st
 }
 
-func decodeBfs(run *ev.Run, sys string, hist []string, pr pool.Result, st *bfsPoolStats) (*bfsResult, bool) {
+func decodeBfs(run *ev.Run, sys string, hist []string, pr pool.Result, st *bfsPoolStats, job ...bfsJob) (*bfsResult, bool) {
 	hs := strings.Join(hist, " ; ")
+	var rp interface{}
+	if len(job) > 0 {
+		rp = mkReplay("bfs", job[0])
+	}
 	if pr.Timeout {
 		if strings.Contains(pr.Dump, "vsync.(*Mutex).Lock") {
 			run.Violation("wedged/"+sys, map[string]interface{}{"history": hist, "dump": tailStr(pr.Dump, 6000)})
@@ -148,7 +152,7 @@ func decodeBfs(run *ev.Run, sys string, hist []string, pr pool.Result, st *bfsPo
 		return nil, false
 	}
 	if pr.Panic != "" {
-		run.Violation("panic/"+sys+"/"+firstLine(pr.Panic), map[string]interface{}{"history": hist, "panic": tailStr(pr.Panic, 6000)})
+		run.Violation("panic/bfs/"+firstLine(pr.Panic), map[string]interface{}{"history": hist, "panic": tailStr(pr.Panic, 6000), "replay": rp})
 		return nil, false
 	}
 	if pr.Err != "" {
@@ -172,7 +176,7 @@ func decodeBfs(run *ev.Run, sys string, hist []string, pr pool.Result, st *bfsPo
 			run.NotExhaustive("harness error")
 			continue
 		}
-		run.Violation(v.Sig, map[string]interface{}{"system": sys, "history": hist, "detail": v.Detail})
+		run.Violation(v.Sig, map[string]interface{}{"system": sys, "history": hist, "detail": v.Detail, "replay": rp})
 	}
 	return &r, true
 }
